@@ -38,6 +38,7 @@ class Run:
         self.exhaustive_tables = []
         self.controls = []        # positive controls (rule, fired?)
         self.selftests = []
+        self.undecided = []
         try:
             self.seed = int(os.environ.get("VERIF_SEED", "0"))
         except ValueError:
@@ -68,9 +69,23 @@ class Run:
         return bool(cond)
 
     def anchor_missing(self, rule, key, what, loc=None):
+        """a structure the rule needs was not found.  Fail closed — unless the only thing missing is a PRIVATE function of
+        the baseline inventory: then an inline-function refactoring folded it into its callers, the rule's structure no
+        longer exists and the rule is `not decided` (recorded, printed, never a violation)."""
+        from . import baseline, facts as _facts
+        known = [(m, baseline.lookup(m)) for m in _facts.MISSED]
+        known = [(m, r) for m, r in known if r is not None]
+        if known and not any(r for _, r in known):
+            gone = sorted({m for m, _ in known})
+            self.undecided.append({"rule": rule, "key": key, "gone": gone})
+            self.ok(rule, "not-decided/" + key, "private function(s) %s of the baseline inventory no longer exist (folded into "
+                    "their callers): this rule is not decided" % ", ".join(gone), loc, nontrivial=False)
+            return
         self.bad(rule, "anchor-missing/" + key, "anchor missing: " + what, loc)
 
     def _inst(self, rule, key, what, loc, nontrivial, detail, ok):
+        from . import facts as _facts
+        del _facts.MISSED[:]
         rc = self.rule_counts.setdefault(rule, {"instances": 0, "violations": 0})
         full = "%s/%s" % (rule, key)
         if full not in self.seen_keys:
@@ -161,6 +176,7 @@ class Run:
             "known_findings_matched": [v["key"] for v, _ in kf],
             "not_covered": ["#[cfg(test)] code", "target_family windows/wasm arm of FsTzdbProvider::get"],
             "notes": self.notes,
+            "not_decided": self.undecided,
         }
         ev = {
             "property_id": self.prop,
@@ -176,6 +192,9 @@ class Run:
         with open(os.path.join(evdir, self.prop + ".json"), "w") as f:
             json.dump(ev, f, indent=1)
         nrules = len(self.rule_counts)
+        for u in self.undecided:
+            print("NOT-DECIDED property=%s rule=%s/%s: private baseline function(s) %s no longer exist" %
+                  (self.prop, u["rule"], u["key"], ", ".join(u["gone"])))
         print("%s %s: %d rule instances over %d rules, %d violations (%d known), %.1fs" %
               (self.prop, self.tier, len(self.instances), nrules, len(real), len(kf), wall))
         return 1 if real else 0
